@@ -426,6 +426,9 @@ class Func(object):
             return '(.tuple1 %s)' % self.expr(n.elts[0])
         if isinstance(n, ast.Dict) and not n.keys:
             return '.emptyDict'
+        if isinstance(n, ast.BinOp) and isinstance(n.op, ast.Mod) and isinstance(n.left, ast.Constant) \
+                and isinstance(n.left.value, str):
+            return '(.pure "%%" [%s, %s] [] [])' % (self.expr(n.left), self.expr(n.right))
         if isinstance(n, ast.BoolOp) and isinstance(n.op, ast.Or):
             parts = [self.expr(v) for v in n.values]
             out = parts[-1]
@@ -832,7 +835,58 @@ class Func(object):
     def inout_params(self):
         return []
 
+    def _dict_append_idiom(self, stmts, i):
+        """`x = D.get(K)` / `if x is None: x = D[K] = []` / `x.append(V)`  (x used nowhere else in the function):
+        the list is the dict's entry all along -> `D[K] = D.get(K, []) + [V]`"""
+        if i + 2 >= len(stmts):
+            return None
+        s1, s2, s3 = stmts[i], stmts[i + 1], stmts[i + 2]
+        if not (isinstance(s1, ast.Assign) and len(s1.targets) == 1 and isinstance(s1.targets[0], ast.Name)
+                and isinstance(s1.value, ast.Call) and isinstance(s1.value.func, ast.Attribute)
+                and s1.value.func.attr == 'get' and isinstance(s1.value.func.value, ast.Name)
+                and len(s1.value.args) == 1 and not s1.value.keywords):
+            return None
+        x, d, k = s1.targets[0].id, s1.value.func.value.id, s1.value.args[0]
+        if self.kinds.get(d) != 'dict':
+            return None
+        if not (isinstance(s2, ast.If) and not s2.orelse and len(s2.body) == 1
+                and ast.unparse(s2.test) == '%s is None' % x
+                and isinstance(s2.body[0], ast.Assign) and len(s2.body[0].targets) == 2
+                and ast.unparse(s2.body[0].targets[0]) == x
+                and ast.unparse(s2.body[0].targets[1]) == '%s[%s]' % (d, ast.unparse(k))
+                and isinstance(s2.body[0].value, ast.List) and not s2.body[0].value.elts):
+            return None
+        if not (isinstance(s3, ast.Expr) and isinstance(s3.value, ast.Call) and isinstance(s3.value.func, ast.Attribute)
+                and s3.value.func.attr == 'append' and ast.unparse(s3.value.func.value) == x
+                and len(s3.value.args) == 1 and not s3.value.keywords):
+            return None
+        if not isinstance(k, ast.Name):
+            return None
+        uses = [n for n in ast.walk(self.fn) if isinstance(n, ast.Name) and n.id == x]
+        if len(uses) != 4:      # the four occurrences of the idiom itself
+            return None
+        return '(.dictAppend %d %s %s)' % (self.var(d), self.expr(k), self.expr(s3.value.args[0]))
+
     def block(self, stmts):
+        parts = []
+        i = 0
+        while i < len(stmts):
+            idi = self._dict_append_idiom(stmts, i)
+            if idi:
+                parts.append(idi)
+                i += 3
+                continue
+            parts += self.stmt(stmts[i])
+            i += 1
+        return self._fold(parts)
+
+    def _fold(self, parts):
+        out = '.nil'
+        for p in reversed(parts):
+            out = '(.cons %s\n    %s)' % (p, out)
+        return out
+
+    def _block_old(self, stmts):
         parts = []
         for s in stmts:
             parts += self.stmt(s)
